@@ -761,4 +761,12 @@ def cliReload (env : Env) (file : Body) (a : CliAdapter) (force addressGiven : B
         | _ => .refused .notFound))
       (serve env ⟨.post, loadPath, body, [], force, .json⟩ s)
 
+/-! ### caddy.go finishSettingUp: config loaders -/
+
+/-- `runLoadedConfig(config)`: a config pulled from the loader named by admin.config.load is
+    applied with `changeConfig(POST, "/config", config, "", false)` — from a goroutine of the
+    lifecycle, under the same write lock as any request -/
+def pulledConfig (env : Env) (config : Body) (s : State) : State × ChangeRes :=
+  change env .post (slash :: cfgKey) config [] false s
+
 end CaddyModel.C12
